@@ -26,7 +26,7 @@
 (* capacity 8 with n packets appears with capacity c and n-(8-c) packets.   *)
 (* Therefore the peer must be allowed at least CapIn+3 packets (CONNECT,    *)
 (* the packet that ends readHandle, CapIn to fill `in`, one that blocks):   *)
-(* ASSUME Budget >= CapIn + 3 below.  CapSock is the room in the kernel's   *)
+(* ASSUME ... Budget >= CapIn + 3 below (as long as that send is unguarded).  CapSock is the room in the kernel's   *)
 (* socket buffers after the peer stopped reading.                           *)
 (***************************************************************************)
 EXTENDS Integers, Sequences, FiniteSets, TLC
@@ -51,7 +51,6 @@ CONSTANTS
   Ops,           \* record extracted from the source, see conn_lib.py
   Dev            \* enabled deviations
 
-ASSUME Budget >= CapIn + 3
 
 K == 1..NConn
 Min(a, b) == IF a < b THEN a ELSE b
@@ -70,6 +69,8 @@ GInSend      == Ops.in_send_guard \/ "in_send_unguarded" \in Dev
 GConnected   == Ops.connected_recv_guard
 GErrConnack  == Ops.errconnack_send_guard
 GWrite       == Ops.write_guard
+\* the budget that fills an unguarded `in` is only needed while the send is unguarded
+ASSUME GInSend \/ Budget >= CapIn + 3
 WLoopClose   == Ops.writeloop_select_close
 WDrain       == Ops.writeloop_drains_on_close      \* the close branch of writeLoop still writes a queued CONNACK / DISCONNECT
 HsTimeout    == Ops.hs_select_timeout
